@@ -330,6 +330,14 @@ impl QueryExecutor {
     }
 }
 
+#[cfg(feature = "verif")]
+impl QueryExecutor {
+    /// Verification hook: number of futures in flight.
+    pub fn verif_len(&self) -> usize {
+        self.futures.len()
+    }
+}
+
 impl Stream for QueryExecutor {
     type Item = QueryContext;
 
